@@ -16,6 +16,7 @@ use c00sched::{Alarm, Exec, ThreadSpec, explore, now};
 use roto::{List, NoCtx, TypedFunc, Val};
 use vcore::{Cfg, Check, Cx, Finding, Meta, SUB_SETUP, Tier, Value, Violation, json};
 
+mod cloned;
 mod free;
 mod nested;
 
@@ -814,7 +815,7 @@ impl Check for C16 {
         "C16"
     }
     fn units(&self, cfg: &Cfg) -> usize {
-        scheduled_units(cfg) + nested_units(cfg) + free::cases().len()
+        scheduled_units(cfg) + nested_units(cfg) + free::cases().len() + 1
     }
     fn case_timeout_s(&self, cfg: &Cfg) -> f64 {
         cfg.tier.pick(120.0, 600.0)
@@ -824,6 +825,9 @@ impl Check for C16 {
         hook_lint()
     }
     fn run_unit(&self, unit: usize, cx: &mut Cx) {
+        if unit == scheduled_units(&cx.cfg) + nested_units(&cx.cfg) + free::cases().len() {
+            return cloned::run(cx);
+        }
         if unit >= scheduled_units(&cx.cfg) + nested_units(&cx.cfg) {
             return run_free(unit - scheduled_units(&cx.cfg) - nested_units(&cx.cfg), cx);
         }
@@ -930,6 +934,9 @@ impl Check for C16 {
         cx.request_restart();
     }
     fn describe(&self, cfg: &Cfg, unit: usize, sub: u64) -> Value {
+        if unit == scheduled_units(cfg) + nested_units(cfg) + free::cases().len() {
+            return cloned::describe(sub);
+        }
         if unit >= scheduled_units(cfg) && unit < scheduled_units(cfg) + nested_units(cfg) {
             if sub == SUB_SETUP {
                 return json!({"setup": nested::SCRIPT});
